@@ -202,6 +202,7 @@ func mergeStats(t, s *Stats) {
 	t.NontrivialAsserts += s.NontrivialAsserts
 	t.Unknown += s.Unknown
 	t.OneShot += s.OneShot
+	t.XUnknown += s.XUnknown
 	for i, v := range s.Hist {
 		t.Hist[i] += v
 	}
